@@ -148,6 +148,13 @@ let () =
       let fl = List.sort compare (List.map item_s (flagged !st csec)) in
       st := compact !st csec chosen;
       Printf.printf "%s\t%s\n" id (String.concat ";" fl)
+    | id :: "F" :: csec :: deltas :: _ ->
+      (* compaction-filter probes: lazy_expired on headers whose ExpireAt is csec + delta *)
+      let c = int_of_string csec in
+      let bits = List.map (fun d ->
+          let h = { h_exp = zi (c + int_of_string d); h_ver = zi 7 } in
+          let b = if lazy_expired h (zi c) then "1" else "0" in b ^ b) (split_on ',' deltas) in
+      Printf.printf "%s\t%s\n" id (String.concat "" bits)
     | id :: "K" :: csec :: rest ->
       (* a real engine compaction: whatever disappeared must be allowed by the filter predicate *)
       let csec = zi (int_of_string csec) in
